@@ -35,7 +35,8 @@ EncCheck(e, ch) ==
                        /\ RefCheck(ChUnRows(e.rows, e.d, e.d), e.v, e.ec, e.mask,
                                    Stream(e.v, e.ec, DataCW(mode, units, hdr, e.v, e.ec)), ch.fm, ch.pos) = <<TRUE, TRUE, TRUE>>
       \* decoding the module matrix (possibly damaged within capacity: e.within = 1 computed by FaultsWithin below)
-      okDec == e.err = 1 \/ e.dec = 0 \/ (e.derr = "" /\ e.dtext = e.text /\ e.dec_ec = e.ec /\ e.dmirror = 0)
+      okDec == e.err = 1 \/ e.dec = 0 \/ (/\ e.derr = "" /\ e.dtext = e.text /\ e.dec_ec = e.ec /\ e.dmirror = 0
+                                         /\ ("berr" \in DOMAIN e => e.berr = "" /\ e.btext = e.text))     \* the [][]bool entry point
       okImg == e.err = 1 \/ Len(e.img) # 3 \/ (e.ierr = "" /\ e.itext = e.text /\ e.iec = e.ec /\ e.ifmt = 1)
   IN <<B(okOutcome), B(okMask), B(okMatrix), B(okDec), B(okImg)>>
 
